@@ -13,10 +13,10 @@ Definition shortcut_names : list string := ["len"; "Count"; "Sum"; "Max"; "Min"]
 Definition acc_v (b : expr) : expr := Lambda ["acc"; "v"] b.
 
 Definition fold_lambda (fn : string) : expr :=
-  if String.eqb fn "len" || String.eqb fn "Count" then acc_v (BinOp Add (Name "acc") (Const (CInt 1)))
-  else if String.eqb fn "Sum" then acc_v (BinOp Add (Name "acc") (Name "v"))
-  else if String.eqb fn "Max" then acc_v (IfExp (Compare (Name "acc") [Gt] [Name "v"]) (Name "acc") (Name "v"))
-  else acc_v (IfExp (Compare (Name "acc") [Lt] [Name "v"]) (Name "acc") (Name "v")).
+  if String.eqb fn "len" || String.eqb fn "Count" then acc_v (BinOp BAdd (Name "acc") (Const (CInt 1)))
+  else if String.eqb fn "Sum" then acc_v (BinOp BAdd (Name "acc") (Name "v"))
+  else if String.eqb fn "Max" then acc_v (IfExp (Compare (Name "acc") [CGt] [Name "v"]) (Name "acc") (Name "v"))
+  else acc_v (IfExp (Compare (Name "acc") [CLt] [Name "v"]) (Name "acc") (Name "v")).
 
 Definition fold_call (fn : string) (seq : expr) : expr :=
   Call (Name "Aggregate") [seq; Const (CInt 0); fold_lambda fn] [] [].
